@@ -602,3 +602,48 @@ Definition pmo_of_toml (tables : list (list key * changes)) : option (list (key 
   option_map (map (fun e => (fst e, with_code_defaults (snd e)))) (destructure_overrides tables).
 Definition pmo_of_ini (tables : list (list key * changes)) : list (key * changes) :=
   pmo_of_sections (map (fun t => (fst t, with_code_defaults (snd t))) tables).
+
+(* ================================================================ config-file discovery (_find_config_file)
+   candidates of one directory, in order: CONFIG_NAMES ++ SHARED_CONFIG_NAMES; a candidate is used iff
+   _parse_individual_file returns non-None: it exists, it parses, and -- for pyproject.toml -- has a
+   [tool.mypy] table / -- for a SHARED name (setup.cfg) -- has a [mypy] section.  mypy.ini / .mypy.ini
+   without a [mypy] section IS used.  The walk goes up until a directory containing .git or .hg (inclusive)
+   or the filesystem root; then USER_CONFIG_FILES in order. *)
+Inductive fdesc := FAbsent | FPresent (parses has_section : bool).
+Definition usable (shared : bool) (f : fdesc) : bool :=
+  match f with FPresent true s => if shared then s else true | _ => false end.
+(* a directory: one fdesc per candidate name (paired with "is a shared name"), and "contains .git/.hg" *)
+Definition dirdesc := (list (bool * fdesc) * bool)%type.
+Fixpoint first_usable (fs : list (bool * fdesc)) (i : nat) : option nat :=
+  match fs with
+  | [] => None
+  | (sh, f) :: r => if usable sh f then Some i else first_usable r (S i)
+  end.
+Inductive found := InTree (depth name_index : nat) | UserFile (index : nat).
+(* dirs: the current directory first, then its parents up to the filesystem root *)
+Fixpoint walk_up (dirs : list dirdesc) (depth : nat) : option found :=
+  match dirs with
+  | [] => None
+  | (fs, is_repo_root) :: r =>
+      match first_usable fs 0 with
+      | Some i => Some (InTree depth i)
+      | None => if is_repo_root then None else walk_up r (S depth)
+      end
+  end.
+Definition find_config_file (dirs : list dirdesc) (user : list fdesc) : option found :=
+  match walk_up dirs 0 with
+  | Some x => Some x
+  | None => option_map UserFile (first_usable (map (fun f => (false, f)) user) 0)
+  end.
+(* documented: all candidates in one list -- directory by directory up to and including the repository root,
+   then the user files -- and the first usable one wins *)
+Fixpoint searched_dirs (dirs : list dirdesc) : list dirdesc :=
+  match dirs with [] => [] | d :: r => if snd d then [d] else d :: searched_dirs r end.
+Fixpoint number_from {A : Type} (l : list A) (i : nat) : list (nat * A) :=
+  match l with [] => [] | x :: r => (i, x) :: number_from r (S i) end.
+Definition candidates (dirs : list dirdesc) (user : list fdesc) : list (found * (bool * fdesc)) :=
+  flat_map (fun dd => map (fun nf => (InTree (fst dd) (fst nf), snd nf)) (number_from (fst (snd dd)) 0))
+           (number_from (searched_dirs dirs) 0)
+  ++ map (fun nf => (UserFile (fst nf), (false, snd nf))) (number_from user 0).
+Definition spec_find_config (dirs : list dirdesc) (user : list fdesc) : option found :=
+  option_map fst (find (fun c => usable (fst (snd c)) (snd (snd c))) (candidates dirs user)).
